@@ -88,3 +88,8 @@ chk("C06", "E4 history explorer (long-lived processes) + constructor log",
     "Each of several independent long-lived processes builds every depth<=2 program over a parameter-variant alphabet (siblings differing in one parameter a tokenizer or hand-built name could drop: slices, axes, keepdims, split_every, weights, seeds, sibling SeedSequences, rechunk options, kwargs) in its own order and keeps everything alive; every program is compared with NumPy (random arrays with values from a clean subprocess), every node name must always carry the same shape/chunks/dtype, and every graph key must always carry the same block value.",
     "Trusted: NumPy / clean-subprocess values adjudicate substitutions; within-process only (cross-process determinism is C07).",
     "DESIGN.md §4 C06")
+chk("C09", "E4 history explorer",
+    "exhaustive enumeration of (program x configuration x placement) and of all event histories up to length L from a reset interpreter state",
+    "Every program of a 20-program set is computed under every configuration of the optimizer/planner keys (quick: one-at-a-time plus all pairs; thorough: the full cross product) set at construction, at compute time, or both; and all histories of length <= 3 (4 on one pool in thorough) over build/compute/graph/persist/drop+gc of programs sharing subtrees and configuration changes are replayed from a reset state (registries and _LOWER_CACHE cleared); every compute must equal NumPy.",
+    "Trusted: reset = clearing SingletonExpr registries and _LOWER_CACHE + gc.collect(); NumPy reference.",
+    "DESIGN.md §4 C09")
